@@ -1208,8 +1208,8 @@ def run(ctx):
     good = run_structured(ctx, 1200 if q else 15000)
     ne = run_exhaustive_small(ctx, 5 if q else 7)
     run_arbitrary(ctx, [gen_arbitrary(ctx.rng, good) for _ in range(1500 if q else 20000)], 'random')
-    run_arbitrary(ctx, [gen_overlong(ctx.rng) for _ in range(600 if q else 8000)], 'overlong')
-    run_fallback(ctx, 900 if q else 12000)
+    run_arbitrary(ctx, [gen_overlong(ctx.rng) for _ in range(400 if q else 8000)], 'overlong')
+    run_fallback(ctx, 700 if q else 12000)
     run_nesting(ctx)
     run_sizes(ctx)
     run_ops(ctx)
